@@ -17,7 +17,11 @@
 (***************************************************************************)
 EXTENDS Engine
 
-CONSTANTS Breakable     \* formula cells that may be broken / healed / overwritten
+CONSTANTS Breakable,    \* formula cells that may be broken / healed / overwritten
+          InitBroken,   \* the cells broken from the start (unknown function)
+          FailEarly,    \* broken cells that fail before reading anything (an unknown
+                        \* function name), the others fail after their arguments
+          Dynamic       \* BOOLEAN: Break / Heal actions (switchable plugin) enabled
 
 VARIABLES broken, ovr, raised
 fvars == <<vars, broken, ovr, raised>>
@@ -52,6 +56,7 @@ EvalSeqF(s, seq) ==
 
 EvalF(s, c) ==
   IF s.failed \/ c \in Inputs \/ s.cache[c] # NoneV THEN s
+  ELSE IF c \in broken /\ c \in FailEarly THEN [s EXCEPT !.failed = TRUE]
   ELSE LET s1 == EvalSeqF(s, NeededSeq(c))
        IN  IF s1.failed THEN s1
            ELSE IF c \in broken THEN [s1 EXCEPT !.failed = TRUE]
@@ -63,7 +68,7 @@ SetToSeqF(S) ==
       F(T) == IF T = {} THEN <<>> ELSE LET x == CHOOSE y \in T : TRUE IN <<x>> \o F(T \ {x})
   IN  F(S)
 
-FInit == Init /\ broken \in SUBSET Breakable /\ ovr = <<>> /\ raised = FALSE
+FInit == Init /\ broken = InitBroken /\ ovr = <<>> /\ raised = FALSE
 
 FEvaluate(n) ==
   LET B  == AncOf(n) \ built
@@ -93,21 +98,23 @@ FSetValue(a, v) ==
 \* overwrite a (failing) formula cell with a constant: set_value on it
 Repair(c, v) ==
   /\ c \in Breakable /\ c \in built /\ ~IsOvr(c)
-  /\ LET c1 == [cache EXCEPT ![c] = v]
-         R  == ResetFrom({c}, {c}, c1)
-     IN  cache' = [x \in Nodes |-> IF x \in R \ {c} THEN NoneV ELSE c1[x]]
+  /\ IF cache[c] = v
+     THEN UNCHANGED <<cache, changed>>           \* same value: set_value does nothing
+     ELSE LET c1 == [cache EXCEPT ![c] = v]
+              R  == ResetFrom({c}, {c}, c1)
+          IN  /\ cache' = [x \in Nodes |-> IF x \in R \ {c} THEN NoneV ELSE c1[x]]
+              /\ changed' = TRUE
   /\ ovr' = [x \in DOMAIN ovr \cup {c} |-> IF x = c THEN v ELSE ovr[x]]
-  /\ changed' = TRUE
   /\ ret' = NoneV /\ raised' = FALSE
   /\ act' = [op |-> "repair", n |-> c, v |-> v]
   /\ UNCHANGED <<inp, built, edges, broken>>
 
-Break(c) == /\ c \in Breakable \ broken /\ ~IsOvr(c)
+Break(c) == /\ Dynamic /\ c \in Breakable \ broken /\ ~IsOvr(c)
             /\ broken' = broken \cup {c}
             /\ act' = [op |-> "break", n |-> c] /\ ret' = NoneV /\ raised' = FALSE
             /\ UNCHANGED <<inp, built, cache, edges, changed, ovr>>
 
-Heal(c) == /\ c \in broken
+Heal(c) == /\ Dynamic /\ c \in broken
            /\ broken' = broken \ {c}
            /\ act' = [op |-> "heal", n |-> c] /\ ret' = NoneV /\ raised' = FALSE
            /\ UNCHANGED <<inp, built, cache, edges, changed, ovr>>
